@@ -282,15 +282,22 @@ func ruleC11_5(c *Ctx) {
 		if !ok || fieldVar(fa.X.Type(), fa.Field) != msgErrF {
 			return
 		}
-		li := lift(in, sread)
-		if li == nil {
-			return
-		}
-		for _, g := range guardsAtRaw(li.Block()) {
-			if readsField(g.Cond, errF, 0) {
-				test = g.If
+		// (the test is looked for where the store is, then at the call sites that lead to it)
+		for cur, i := in, 0; cur != nil && test == nil && i < 4; i++ {
+			for _, g := range guardsAtRaw(cur.Block()) {
+				if readsField(g.Cond, errF, 0) {
+					test = g.If
+					break
+				}
+			}
+			if outermost(cur.Parent()) == sread {
 				break
 			}
+			var up ssa.Instruction
+			if sites := p.helperSites(outermost(cur.Parent())); p.isHelper(outermost(cur.Parent())) && len(sites) == 1 {
+				up = sites[0].Instr
+			}
+			cur = up
 		}
 	})
 	if test == nil {
@@ -299,22 +306,49 @@ func ruleC11_5(c *Ctx) {
 	}
 	writers := errorWriters(p, errF)
 	n := 0
+	// holder: the function that evaluates the test (conn.sread or a helper it runs: `return f, c.settle(f)`)
+	holder := outermost(test.Parent())
+	var holderSite ssa.Instruction
+	if holder != sread {
+		holderSite = lift(test, sread)
+		if holderSite == nil {
+			c.undecided("conn.sread: error completion test", c.at(test), "the test sits in "+shortFn(holder)+", which is not reached from conn.sread through a single call site")
+			return
+		}
+		c.touch(holder)
+	}
 	check := func(in ssa.Instruction, what string) {
 		n++
-		okAll := canReach(in, test)
-		for _, r := range returnsReachable(sread) {
-			if canReach(in, r) && !test.Block().Dominates(r.Block()) {
-				okAll = false
+		var okAll bool
+		if outermost(in.Parent()) == holder {
+			okAll = canReach(in, test)
+			for _, r := range returnsReachable(holder) {
+				if canReach(in, r) && !test.Block().Dominates(r.Block()) {
+					okAll = false
+				}
+			}
+		} else {
+			// before the helper runs: the helper's call is on every way out, and the test on every way through the helper
+			okAll = canReach(in, holderSite)
+			for _, r := range returnsReachable(sread) {
+				if canReach(in, r) && !dominatesInstr(holderSite, r) {
+					okAll = false
+				}
+			}
+			for _, r := range returnsReachable(holder) {
+				if !test.Block().Dominates(r.Block()) {
+					okAll = false
+				}
 			}
 		}
 		c.check(okAll, "conn.sread: "+what+" is followed by the Frag.Error test", c.at(in), "the test at "+c.at(test)+" is on every way out",
 			what+" can set Frag.Error, but the test that completes the whole request with that error is not evaluated afterwards on every path: a backend error on one fragment of a split DEL/MGET is not propagated (the client gets a partial count, a stalled request or the proxy indexes a missing reply)")
 	}
-	allInstrs(sread, func(in ssa.Instruction) {
+	visit := func(in ssa.Instruction) {
 		switch x := in.(type) {
 		case ssa.CallInstruction:
 			for _, callee := range calleesOfCommon(p, x.Common()) {
-				if writers[callee] && callee != sread {
+				if writers[callee] && callee != sread && callee != holder {
 					check(in, "the call of "+shortFn(callee))
 					return
 				}
@@ -324,7 +358,11 @@ func ruleC11_5(c *Ctx) {
 				check(in, "the store to Frag.Error")
 			}
 		}
-	})
+	}
+	allInstrs(sread, visit)
+	if holder != sread {
+		allInstrs(holder, visit)
+	}
 	if n < 2 {
 		c.undecided("conn.sread: Frag.Error writers", p.pos(sread.Pos()), fmt.Sprintf("%d found (MGet, Del and the size check expected)", n))
 	}
